@@ -344,6 +344,10 @@ HARNESSES = [
       tiers=('thorough',)),
 ]
 
+for _h in HARNESSES:
+    if _h.name.endswith('_far_tail'):
+        _h.float_region = True       # the concrete twin's verdict on the region's models is part of the check
+
 MANIFEST = {
     'level_text': 'Bounded symbolic execution of the real ModelPrior on real ElfiModels with uninterpreted conditional densities: '
                   'for every evaluation point, every support-membership outcome and every distribution (PDF_k / log PDF_k / INSUP_k '
